@@ -21,6 +21,10 @@ type Packet struct {
 
 	// Address is the parsed representation of the address and calculated automatically while unmarshalling
 	Address addr.ProtoAddress
+
+	// password is the pre-shared key taken from the address on the first connect (the address loses its
+	// user part there); a later re-connect needs it again
+	password string
 }
 
 // DefaultCreateConnection will create a packet connection over UDP using KCP
@@ -59,16 +63,19 @@ func (ups *Packet) ConnectPacket(manager cert.TlsConfig, mustSecure bool, connec
 
 	if ups.Address.User != nil {
 		if p, set := ups.Address.User.Password(); set && p != "" {
-			secure = true
-			pass = []byte(p)
-
-			// Not the best way to calculate salt but still better than nothing
-			h := sha256.New()
-			h.Write(pass)
-			salt = h.Sum(nil)
+			ups.password = p
 		}
 	}
 	ups.Address.User = nil
+	if ups.password != "" {
+		secure = true
+		pass = []byte(ups.password)
+
+		// Not the best way to calculate salt but still better than nothing
+		h := sha256.New()
+		h.Write(pass)
+		salt = h.Sum(nil)
+	}
 
 	n, err := ups.Address.Addr()
 	if err != nil {
